@@ -200,7 +200,45 @@ class Recorder(object):
                       id=packet.id)
 
 
-def make_connection(port, rec, cls=None, early_listener=True, **kw):
+class Decoy(object):
+    """A second Connection object constructed *after* the one under test and
+    never used: it points at a port that refuses connections, has another
+    user name, and carries listeners/handlers that must never be called.
+    State shared between Connection objects (class- or module-level) shows up
+    as the connection under test using the decoy's address, name or
+    callbacks."""
+
+    def __init__(self):
+        from minecraft.networking.connection import Connection
+        from minecraft.networking.packets import Packet
+        from ..server.mcserver import RefusingPort
+        self.port = RefusingPort()
+        self.calls = []
+        self.conn = Connection(
+            '127.0.0.1', self.port.port, username='decoy-user',
+            allowed_versions={340},
+            handle_exception=lambda e, i: self.calls.append(('exc', repr(e))),
+            handle_exit=lambda: self.calls.append(('exit',)))
+        for kw in ({'early': True}, {}, {'outgoing': True},
+                   {'outgoing': True, 'early': True}):
+            self.conn.register_packet_listener(
+                lambda p, kw=kw: self.calls.append(
+                    ('listener', sorted(kw), type(p).__name__)), Packet, **kw)
+        self.conn.register_exception_handler(
+            lambda e, i: self.calls.append(('handler', repr(e))))
+
+    def verdict(self, run, w, key='isolation/decoy-callbacks'):
+        self.port.close()
+        if self.calls:
+            run.violation(key, 'callbacks of another, unused Connection '
+                          'object were invoked (state shared between '
+                          'Connection objects)', dict(w, calls=self.calls[:4]))
+            return False
+        return True
+
+
+def make_connection(port, rec, cls=None, early_listener=True, decoy=False,
+                    **kw):
     from minecraft.networking.packets import Packet
     K = cls or monitored_connection_class()
     kw.setdefault('username', 'vfuser')
@@ -209,6 +247,8 @@ def make_connection(port, rec, cls=None, early_listener=True, **kw):
     conn.vf_log = rec.log
     if early_listener:
         conn.register_packet_listener(rec.on_packet, Packet, early=True)
+    if decoy:
+        rec.decoy = Decoy()
     return conn
 
 
